@@ -367,6 +367,11 @@ example : (siteEntries exScn).map (·.logger) =
      str "http.log.access", str "http.log.access", str "http.log.access.n1", str "http.log.access.n1"] := by decide
 example : ∀ e ∈ siteEntries exScn, ∀ b ∈ hdrStrings e.hdr, occurs (str "SECRET") b = false := by decide
 
+-- the fastcgi transport's own debug entry precedes the reverse proxy's
+example : (siteEntries { exScn with route := .fcgiErr, rewrote := false, names := [[]] }).map (·.logger) =
+    [str "http.reverse_proxy.transport.fastcgi", str "http.handlers.reverse_proxy", str "http.log.error",
+     str "http.log.access", str "http.log.access"] := by decide
+
 -- with log_credentials ON the rewrite entry is still redacted, the access entry is not
 def exScnOn : Scn := { exScn with creds := true, route := .respond }
 example : (siteEntries exScnOn).map (fun e => (e.logger, occurs (str "SECRET") (hdrStrings e.hdr).flatten)) =
